@@ -50,10 +50,22 @@ func (p c12) Gen(t *rapid.T, env *Env) (*Case, []*Out) {
 		w, args = GenCorpusWorld(t)
 	}
 	if w == nil {
+		SelfNamedDefs = true
 		w = GenWorld(t, maxFiles)
+		SelfNamedDefs = false
 		args = drawArgs(t, w)
 	}
 	env.Stats.NoteFeat(w.Feat)
+	var respell func(t *rapid.T) []string
+	if afs := argFiles(w, args); len(afs) == len(args) && len(afs) > 0 {
+		respell = func(t *rapid.T) []string {
+			var out []string
+			for _, f := range afs {
+				out = append(out, w.ArgFor(f, rapid.SampledFrom([]string{"rel", "dot", "abs"}).Draw(t, "respell")))
+			}
+			return out
+		}
+	}
 	c := &Case{Prop: "C12"}
 	meta := c12Meta{Feat: w.Feat}
 	spec0 := w.Spec("", nil, args)
@@ -79,7 +91,8 @@ func (p c12) Gen(t *rapid.T, env *Env) (*Case, []*Out) {
 		prefix := ""
 		var ko *KeyOrder
 		var kinds []string
-		mode := rapid.IntRange(0, 9).Draw(t, "mode")
+		mode := rapid.IntRange(0, 10).Draw(t, "mode")
+		vargs := args
 		sp := simrt.Spec{}
 		apply := func(mode int) {
 			switch mode {
@@ -116,6 +129,10 @@ func (p c12) Gen(t *rapid.T, env *Env) (*Case, []*Out) {
 				kinds = append(kinds, "chunks")
 			case 6:
 				prefix = rapid.SampledFrom(prefixChoices).Draw(t, "prefix")
+				if (w.Cwd == w.Root || strings.HasPrefix(w.Cwd, w.Root+"/")) && rapid.Bool().Draw(t, "rename") {
+					// the schema directory also gets another NAME
+					prefix = "=" + rapid.SampledFrom([]string{"/srv/schemas-copy", "/relocated", "/home/u/proj/api"}).Draw(t, "newroot")
+				}
 				kinds = append(kinds, "reloc")
 			case 7:
 				ko = &KeyOrder{Choices: rapid.SliceOfN(rapid.IntRange(0, 7), 1, 8).Draw(t, "keyperm")}
@@ -126,6 +143,14 @@ func (p c12) Gen(t *rapid.T, env *Env) (*Case, []*Out) {
 				sp.Host = rapid.SampledFrom([]string{"hostA", "build-7", ""}).Draw(t, "host")
 				sp.Env = map[string]string{"HOME": "/home/u" + strconv.Itoa(sp.Pid), "USER": "u", "TZ": "Asia/Tokyo", "LANG": "tr_TR.UTF-8"}
 				kinds = append(kinds, "ambient")
+			case 10:
+				// the same files named differently on the command line (x.json, ./x.json, /abs/x.json)
+				if respell == nil {
+					kinds = append(kinds, "repeat")
+					return
+				}
+				vargs = respell(t)
+				kinds = append(kinds, "respell")
 			case 9:
 				// everything at once
 				sp.MapDefault = "reverse"
@@ -139,7 +164,7 @@ func (p c12) Gen(t *rapid.T, env *Env) (*Case, []*Out) {
 		if env.Thorough() && mode != 9 && rapid.IntRange(0, 3).Draw(t, "second") == 0 {
 			apply(rapid.IntRange(1, 8).Draw(t, "mode2"))
 		}
-		base := w.Spec(prefix, ko, args)
+		base := w.Spec(prefix, ko, vargs)
 		base.MapDefault, base.MapOrders, base.Chunks = sp.MapDefault, sp.MapOrders, sp.Chunks
 		base.Clock, base.Pid, base.Host, base.Env = sp.Clock, sp.Pid, sp.Host, sp.Env
 		label := strings.Join(kinds, "+")
@@ -184,10 +209,14 @@ func intsUpTo(n int) []int {
 
 // relOutputs keys the outputs of a run by path relative to its prefix.
 func relOutputs(r *Run, o *Out, prefix string) map[string][]byte {
+	return relOutputsRoot(r, o, prefix, "/w")
+}
+
+func relOutputsRoot(r *Run, o *Out, prefix, root string) map[string][]byte {
 	m := map[string][]byte{}
 	for p, b := range Outputs(&r.Spec, o) {
 		if p != "-" && prefix != "" {
-			p = strings.TrimPrefix(p, prefix)
+			p = UnmapAbs(prefix, root, p)
 		}
 		m[p] = b
 	}
